@@ -232,18 +232,18 @@ theorem initQub_no_eval_after_stop (P : Problem α) (pr : Params α) (stop : Nat
 
 /-- Number of oracle calls of the initialisation (Lipschitz estimate, first proximal-gradient step,
     initial quadratic-upper-bound backtracking). -/
-def initTicks (P : Problem α) (d0 : D) (pr : Params α) (stop : Nat → Bool) (x0 gV : Vec α) (gS : α) :
+def initTicks (P : Problem α) (d0 : D) (pr : Params α) (stop : Nat → Bool) (x0 gV : Vec α) (gS iS : α) :
     Nat :=
-  match initState P d0 pr stop x0 gV gS with
+  match initState P d0 pr stop x0 gV gS iS with
   | .inl t => t
   | .inr s => s.tick
 
 /-- The initialisation makes `2` or `1` calls for the Lipschitz estimate / first `ψ, ∇ψ`, `2` for
     the first proximal-gradient step and `2` per initial step-size backtrack. -/
 theorem initTicks_eq (P : Problem α) (d0 : D) (pr : Params α) (stop : Nat → Bool) (x0 gV : Vec α)
-    (gS : α) (s : St α D) (h : initState P d0 pr stop x0 gV gS = .inr s) :
+    (gS iS : α) (s : St α D) (h : initState P d0 pr stop x0 gV gS iS = .inr s) :
     s.tick = (if pr.L0 ≤ 0 then 2 else 1) + 2 + 2 * s.stats.stepsizeBacktracks := by
-  have := initState_ticks P d0 pr stop x0 gV gS
+  have := initState_ticks P d0 pr stop x0 gV gS iS
   rw [h] at this
   exact this
 
@@ -253,8 +253,8 @@ theorem initTicks_eq (P : Problem α) (d0 : D) (pr : Params α) (stop : Nat → 
     (Lipschitz estimate `≤ 2`, first proximal-gradient step and `ψ(x̂)`); `t₀ + 1`: a backtrack
     (2 calls) is only started at a tick `< t₀`. -/
 theorem initTicks_after_stop (P : Problem α) (d0 : D) (pr : Params α) (stop : Nat → Bool)
-    (hm : StopMono stop) (t0 : Nat) (h0 : stop t0 = true) (x0 gV : Vec α) (gS : α) :
-    initTicks P d0 pr stop x0 gV gS ≤ max 4 (t0 + 1) := by
+    (hm : StopMono stop) (t0 : Nat) (h0 : stop t0 = true) (x0 gV : Vec α) (gS iS : α) :
+    initTicks P d0 pr stop x0 gV gS iS ≤ max 4 (t0 + 1) := by
   unfold initTicks initState
   simp only []
   split_ifs with h1 h2 h3 <;> simp only [] <;>
@@ -271,14 +271,14 @@ theorem initTicks_after_stop (P : Problem α) (d0 : D) (pr : Params α) (stop : 
     gives `≤ t₀ + 5`: the backtrack in flight, head, exit block). -/
 theorem at_most_one_iteration_after_stop (P : Problem α) (dir : Direction D α) (d0 : D)
     (pr : Params α) (stop : Nat → Bool) (hm : StopMono stop) (t0 : Nat) (h0 : stop t0 = true)
-    (oot : Bool) (x0 y Sig errz0 gV : Vec α) (gS : α) :
-    (run P dir d0 pr stop oot x0 y Sig errz0 gV gS).ticks ≤ max 8 (t0 + 7) := by
-  have hi := initTicks_after_stop P d0 pr stop hm t0 h0 x0 gV gS
+    (oot : Bool) (x0 y Sig errz0 gV : Vec α) (gS iS : α) :
+    (run P dir d0 pr stop oot x0 y Sig errz0 gV gS iS).ticks ≤ max 8 (t0 + 7) := by
+  have hi := initTicks_after_stop P d0 pr stop hm t0 h0 x0 gV gS iS
   unfold initTicks at hi
   unfold run
-  cases hs : initState P d0 pr stop x0 gV gS with
+  cases hs : initState P d0 pr stop x0 gV gS iS with
   | inl t =>
-    have := initState_ticks P d0 pr stop x0 gV gS
+    have := initState_ticks P d0 pr stop x0 gV gS iS
     rw [hs] at this
     simp only [] at this ⊢
     omega
@@ -292,10 +292,10 @@ theorem at_most_one_iteration_after_stop (P : Problem α) (dir : Direction D α)
     or after the first oracle call (`t₀ ≥ 1` — every request made while the solve is running). -/
 theorem ticks_after_stop_le (P : Problem α) (dir : Direction D α) (d0 : D)
     (pr : Params α) (stop : Nat → Bool) (hm : StopMono stop) (t0 : Nat) (h0 : stop t0 = true)
-    (oot : Bool) (x0 y Sig errz0 gV : Vec α) (gS : α) :
-    (run P dir d0 pr stop oot x0 y Sig errz0 gV gS).ticks ≤ t0 + 8 ∧
-    (1 ≤ t0 → (run P dir d0 pr stop oot x0 y Sig errz0 gV gS).ticks ≤ t0 + 7) := by
-  have := at_most_one_iteration_after_stop P dir d0 pr stop hm t0 h0 oot x0 y Sig errz0 gV gS
+    (oot : Bool) (x0 y Sig errz0 gV : Vec α) (gS iS : α) :
+    (run P dir d0 pr stop oot x0 y Sig errz0 gV gS iS).ticks ≤ t0 + 8 ∧
+    (1 ≤ t0 → (run P dir d0 pr stop oot x0 y Sig errz0 gV gS iS).ticks ≤ t0 + 7) := by
+  have := at_most_one_iteration_after_stop P dir d0 pr stop hm t0 h0 oot x0 y Sig errz0 gV gS iS
   constructor
   · omega
   · intro h1; omega
@@ -306,20 +306,20 @@ theorem ticks_after_stop_le (P : Problem α) (dir : Direction D α) (d0 : D)
     final one, reporting the initial iterate), at most `4` further calls. -/
 theorem init_interrupted_single_callback (P : Problem α) (dir : Direction D α) (d0 : D)
     (pr : Params α) (stop : Nat → Bool) (hm : StopMono stop) (oot : Bool)
-    (x0 y Sig errz0 gV : Vec α) (gS : α) (s : St α D)
-    (hs : initState P d0 pr stop x0 gV gS = .inr s) (hst : stop s.tick = true) :
+    (x0 y Sig errz0 gV : Vec α) (gS iS : α) (s : St α D)
+    (hs : initState P d0 pr stop x0 gV gS iS = .inr s) (hst : stop s.tick = true) :
     (headStep P pr stop oot s).2.2 ≠ .Busy ∧
-    run P dir d0 pr stop oot x0 y Sig errz0 gV gS =
+    run P dir d0 pr stop oot x0 y Sig errz0 gV gS iS =
       exitBlock P pr (headStep P pr stop oot s).1 (headStep P pr stop oot s).2.1
         (headStep P pr stop oot s).2.2 x0 y Sig errz0 ∧
-    (run P dir d0 pr stop oot x0 y Sig errz0 gV gS).stats.iterations = 0 ∧
-    (run P dir d0 pr stop oot x0 y Sig errz0 gV gS).callbacks.length = 1 ∧
-    (run P dir d0 pr stop oot x0 y Sig errz0 gV gS).ticks ≤ s.tick + 4 := by
+    (run P dir d0 pr stop oot x0 y Sig errz0 gV gS iS).stats.iterations = 0 ∧
+    (run P dir d0 pr stop oot x0 y Sig errz0 gV gS iS).callbacks.length = 1 ∧
+    (run P dir d0 pr stop oot x0 y Sig errz0 gV gS iS).ticks ≤ s.tick + 4 := by
   have hf := headStep_fields P pr stop oot s
-  have hk := C06Panoc.initState_k P d0 pr stop x0 gV gS s hs
+  have hk := C06Panoc.initState_k P d0 pr stop x0 gV gS iS s hs
   have hstop : stop (headStep P pr stop oot s).1.tick = true := hm _ _ hf.2.2.2.2.2.1 hst
   have hx := stop_at_head_exits P dir pr stop oot x0 y Sig errz0 (pr.maxIter + 1) s hstop
-  have hr : run P dir d0 pr stop oot x0 y Sig errz0 gV gS =
+  have hr : run P dir d0 pr stop oot x0 y Sig errz0 gV gS iS =
       mainLoop P dir pr stop oot x0 y Sig errz0 (pr.maxIter + 1 + 1) s := by
     unfold run; rw [hs]
   refine ⟨hx.1, by rw [hr]; exact hx.2.1, by rw [hr, hx.2.2.2]; exact hk.1, ?_, ?_⟩
@@ -355,22 +355,22 @@ end chain
     finite`, `NoProgress ∧ counter > max_no_progress`). -/
 theorem interrupted_or_natural (P : Problem α) (dir : Direction D α) (d0 : D) (pr : Params α)
     (stop : Nat → Bool) (hm : StopMono stop) (t0 : Nat) (h0 : stop t0 = true) (oot : Bool)
-    (x0 y Sig errz0 gV : Vec α) (gS : α) (sh : St α D)
-    (hfuel : (run P dir d0 pr stop oot x0 y Sig errz0 gV gS).fuelOut = false)
-    (hh : C06Panoc.finalHead P dir d0 pr stop oot x0 gV gS = some sh)
-    (hlate : t0 + 2 ≤ (run P dir d0 pr stop oot x0 y Sig errz0 gV gS).ticks) :
-    (run P dir d0 pr stop oot x0 y Sig errz0 gV gS).stats.status = .Interrupted ∨
-    ((run P dir d0 pr stop oot x0 y Sig errz0 gV gS).stats.status = .Converged ∧
-      (run P dir d0 pr stop oot x0 y Sig errz0 gV gS).stats.eps ≤ effTol pr.tolerance) ∨
-    ((run P dir d0 pr stop oot x0 y Sig errz0 gV gS).stats.status = .MaxTime ∧ oot = true) ∨
-    ((run P dir d0 pr stop oot x0 y Sig errz0 gV gS).stats.status = .MaxIter ∧
-      (run P dir d0 pr stop oot x0 y Sig errz0 gV gS).stats.iterations = pr.maxIter) ∨
-    ((run P dir d0 pr stop oot x0 y Sig errz0 gV gS).stats.status = .NotFinite ∧
-      RealLike.isFinite (run P dir d0 pr stop oot x0 y Sig errz0 gV gS).stats.eps = false) ∨
-    ((run P dir d0 pr stop oot x0 y Sig errz0 gV gS).stats.status = .NoProgress ∧
+    (x0 y Sig errz0 gV : Vec α) (gS iS : α) (sh : St α D)
+    (hfuel : (run P dir d0 pr stop oot x0 y Sig errz0 gV gS iS).fuelOut = false)
+    (hh : C06Panoc.finalHead P dir d0 pr stop oot x0 gV gS iS = some sh)
+    (hlate : t0 + 2 ≤ (run P dir d0 pr stop oot x0 y Sig errz0 gV gS iS).ticks) :
+    (run P dir d0 pr stop oot x0 y Sig errz0 gV gS iS).stats.status = .Interrupted ∨
+    ((run P dir d0 pr stop oot x0 y Sig errz0 gV gS iS).stats.status = .Converged ∧
+      (run P dir d0 pr stop oot x0 y Sig errz0 gV gS iS).stats.eps ≤ effTol pr.tolerance) ∨
+    ((run P dir d0 pr stop oot x0 y Sig errz0 gV gS iS).stats.status = .MaxTime ∧ oot = true) ∨
+    ((run P dir d0 pr stop oot x0 y Sig errz0 gV gS iS).stats.status = .MaxIter ∧
+      (run P dir d0 pr stop oot x0 y Sig errz0 gV gS iS).stats.iterations = pr.maxIter) ∨
+    ((run P dir d0 pr stop oot x0 y Sig errz0 gV gS iS).stats.status = .NotFinite ∧
+      RealLike.isFinite (run P dir d0 pr stop oot x0 y Sig errz0 gV gS iS).stats.eps = false) ∨
+    ((run P dir d0 pr stop oot x0 y Sig errz0 gV gS iS).stats.status = .NoProgress ∧
       sh.noProgress > pr.maxNoProgress) := by
-  have hc := C06Panoc.final_status_is_chain P dir d0 pr stop oot x0 y Sig errz0 gV gS sh hfuel hh
-  have he := C06Panoc.run_eq_exit P dir d0 pr stop oot x0 y Sig errz0 gV gS sh hfuel hh
+  have hc := C06Panoc.final_status_is_chain P dir d0 pr stop oot x0 y Sig errz0 gV gS iS sh hfuel hh
+  have he := C06Panoc.run_eq_exit P dir d0 pr stop oot x0 y Sig errz0 gV gS iS sh hfuel hh
   have ht := (exitBlock_fields P pr sh (epsOf P pr sh.curr)
     (statusOf pr sh.k (epsOf P pr sh.curr) sh.noProgress oot (stop sh.tick)) x0 y Sig errz0).2.2.2.2.2
   rw [← he.2] at ht
@@ -430,10 +430,10 @@ theorem mainLoop_fuel_suffices (P : Problem α) (dir : Direction D α) (pr : Par
     whenever results are written, `x_out` is the `x̂` of a proximal-gradient step, `y_out = ŷ(x_out)`,
     `err_z = (y_out − y_in)/Σ`; otherwise the caller's values are untouched. -/
 theorem outputs_consistent (P : Problem α) (dir : Direction D α) (d0 : D) (pr : Params α)
-    (stop : Nat → Bool) (oot : Bool) (x0 y Sig errz0 gV : Vec α) (gS : α)
-    (hfuel : (run P dir d0 pr stop oot x0 y Sig errz0 gV gS).fuelOut = false) :
-    ExitOK P x0 y Sig errz0 (run P dir d0 pr stop oot x0 y Sig errz0 gV gS) :=
-  C03.panoc_exit_contract P dir d0 pr stop oot x0 y Sig errz0 gV gS hfuel
+    (stop : Nat → Bool) (oot : Bool) (x0 y Sig errz0 gV : Vec α) (gS iS : α)
+    (hfuel : (run P dir d0 pr stop oot x0 y Sig errz0 gV gS iS).fuelOut = false) :
+    ExitOK P x0 y Sig errz0 (run P dir d0 pr stop oot x0 y Sig errz0 gV gS iS) :=
+  C03.panoc_exit_contract P dir d0 pr stop oot x0 y Sig errz0 gV gS iS hfuel
 
 /-! ### Non-vacuity -/
 
@@ -454,7 +454,7 @@ example : (rq (some 7)).stats.status = .Interrupted ∧ (rq (some 7)).ticks = 9 
 
 /-- `L₀ = 1/16` (true curvature 1): the initial step-size loop backtracks 4 times (8 calls). -/
 def rqSmall (t0 : Option Nat) : Result ℚ Unit :=
-  run Pq dirNoop () { prq with L0 := 1/16 } (stopAt t0) false [1] [] [] [] [] 0
+  run Pq dirNoop () { prq with L0 := 1/16 } (stopAt t0) false [1] [] [] [] [] 0 0
 
 /-- a request landing inside the initialisation (flag visible from tick 4, i.e. during the first
     backtrack): the initial loop stops after that backtrack (1 instead of 4), the first head returns
@@ -465,8 +465,8 @@ example : (rqSmall (some 4)).stats.status = .Interrupted ∧ (rqSmall (some 4)).
     (rqSmall (some 4)).callbacks.length = 1 ∧ (rqSmall (some 4)).stats.iterations = 0 ∧
     (rqSmall (some 4)).fuelOut = false ∧
     (rqSmall none).stats.stepsizeBacktracks = 4 ∧ (rqSmall none).fuelOut = false ∧
-    initTicks Pq () { prq with L0 := 1/16 } (stopAt none) [1] [] 0 = 11 ∧
-    initTicks Pq () { prq with L0 := 1/16 } (stopAt (some 4)) [1] [] 0 = 5 := by decide +kernel
+    initTicks Pq () { prq with L0 := 1/16 } (stopAt none) [1] [] 0 0 = 11 ∧
+    initTicks Pq () { prq with L0 := 1/16 } (stopAt (some 4)) [1] [] 0 0 = 5 := by decide +kernel
 
 /-- a history of accesses as they occur in the source: once set, the flag stays set -/
 example : flagAfter false [.load, .store (some true), .load, .store (some true), .load] = true := by
